@@ -7,6 +7,7 @@
 package absstate
 
 import (
+	"crypto/sha256"
 	"encoding/hex"
 	"fmt"
 
@@ -22,13 +23,26 @@ import (
 
 const Far = 1000000
 
-// ID is the opaque identity of a byte string: the bytes themselves in hex when short, otherwise the
-// first four and last four bytes (robust against values that are small integers from either end).
+// ID is the opaque identity of a byte string: the bytes themselves in hex when short (<= 8 bytes), the fixed
+// ZeroID for an all-zero string of any length, otherwise the first four bytes followed by the first four
+// bytes of sha256(b) - so that EVERY byte matters (a corruption anywhere in a root changes its identity)
+// while values stay recognisable.
 func ID(b []byte) string {
 	if len(b) <= 8 {
 		return hex.EncodeToString(b)
 	}
-	return hex.EncodeToString(b[:4]) + hex.EncodeToString(b[len(b)-4:])
+	zero := true
+	for _, x := range b {
+		if x != 0 {
+			zero = false
+			break
+		}
+	}
+	if zero {
+		return ZeroID
+	}
+	h := sha256.Sum256(b)
+	return hex.EncodeToString(b[:4]) + hex.EncodeToString(h[:4])
 }
 
 const ZeroID = "0000000000000000"
@@ -161,9 +175,17 @@ type State struct {
 }
 
 // proj collects the first out-of-range conversion so that callers get one error.
-type proj struct{ err error }
+type proj struct {
+	err     error
+	lenient bool
+	clamped bool
+}
 
 func (p *proj) num(x uint64, what string) int {
+	if x >= Big && p.lenient {
+		p.clamped = true
+		return Big
+	}
 	if x >= 1<<31 {
 		if p.err == nil {
 			p.err = fmt.Errorf("absstate: %s = %d does not fit the 32-bit abstraction", what, x)
@@ -176,6 +198,10 @@ func (p *proj) num(x uint64, what string) int {
 func (p *proj) epoch(e common.Epoch, what string) int {
 	if e == common.FAR_FUTURE_EPOCH {
 		return Far
+	}
+	if uint64(e) >= Far && p.lenient {
+		p.clamped = true
+		return Big
 	}
 	if uint64(e) >= Far {
 		if p.err == nil {
